@@ -10,7 +10,7 @@ import sessioncheck
 import universe
 
 INFO = {
-    'proof_files': ['Proofs/ColorProofs.v', 'Proofs/ShowProofs.v'] + ['Proofs/SessionColor%s.v' % c for c in 'ABJCDEFGHIKL'],
+    'proof_files': ['Proofs/ColorProofs.v', 'Proofs/ShowProofs.v'] + ['Proofs/SessionColor%s.v' % c for c in 'ABJCDEFGHIKL'] + ['Proofs/PastedCommands.v'],
     'assumptions': [
         'theorems are about WD.Color (color/no_color) and WD.Show (message lines); tied to core/util.py and every __str__/notice by (1) the property\'s own relation checked directly on /repo: each generated session (all argument kinds, labels, destroyed annotations, unresolved objects, passthrough lines, list/filter/breakpoint/matcher/connection/help commands, errors) is run with --color and with --no-color and compared line by line after stripping, (2) the model\'s coloured output compared with /repo\'s, (3) coloured text pasted back as matcher / command',
         'the whole-session statement is proved for the model (C17_session: every event, every command, both modes, no hypothesis; C17_off_no_escape; C17_session_exact over the regenerated shipped protocol data); the model is tied to /repo by the three explorations above',
@@ -123,6 +123,15 @@ def pasted_back(res, rnd):
             continue
         w = cmd.split(None, 1)
         col = '\x1b[93m' + w[0] + '\x1b[0m' + (' ' + '\x1b[1;96m' + w[1] + '\x1b[0m' if len(w) > 1 else '')
+        # other places a terminal selection puts sequences: a reset before the first word (D13: a sequence followed by a blank
+        # used to trip an assertion), after the last one, inside a word
+        v = rnd.random()
+        if v < 0.2:
+            col = '\x1b[0m ' + col
+        elif v < 0.3:
+            col = '\x1b[0m \x1b[1m  ' + cmd + ' \x1b[0m'
+        elif v < 0.4:
+            col = cmd[:1] + '\x1b[2;37m' + cmd[1:] + '\x1b[0m'
         outs = []
         for text in (cmd, col):
             case = dict(config=[None, None, 0, 1, 0], impl_events=[('cmd', text), ('eof',)], events=[['cmd', text], ['eof']], dialect='old')
